@@ -92,3 +92,23 @@ Theorem C11_metadata_from_raw_group_or_success O data ord : MetaFacts.well_typed
   (exists s, MetaModel.from_raw_ord ord O true data = MetaModel.FOk s) \/ (exists es, es <> [] /\ MetaModel.from_raw_ord ord O true data = MetaModel.FGroup es).
 Proof. exact (C17.C17_accept_or_group O data ord). Qed.
 Print Assumptions C11_metadata_from_raw_group_or_success.
+
+(* ---------------- proved with the marker, metadata and ELF models in the improvement round; restated here ---------------- *)
+Require MkTotalP C16.
+(* Marker.evaluate: for an accepted marker under a complete, typed environment the result is a bool or UndefinedComparison /
+   UndefinedEnvironmentName - none of the four crash points of the evaluator (missing variable, an operator method escaping,
+   a malformed boolean list, an undefined environment) is reachable *)
+Theorem C11_marker_evaluate_never_crashes s m defaults ov : MkModel.Marker s = MkModel.MOk m -> MkTreeP.detects_all defaults -> MkTreeP.typed ov ->
+  MkEval.evaluate m defaults ov <> MkEval.ECrash.
+Proof. exact (MkTotalP.evaluate_never_crashes s m defaults ov). Qed.
+Print Assumptions C11_marker_evaluate_never_crashes.
+(* Metadata.from_raw with component parsers that may raise ANYTHING (three-valued oracles): either no reached component raises something
+   undocumented and the outcome is success or one group of InvalidMetadata, or one does and exactly that exception escapes - the assumption
+   "the components raise only their documented exception" is now a hypothesis one can read (escapes3), not a property of the oracle type *)
+Theorem C11_metadata_outcome O data ord : MetaFacts.well_typed data -> (forall l, Permutation.Permutation (ord l) l) ->
+  (MetaFacts3.escapes3 O data = false /\ ((exists s, MetaModel3.from_raw3_ord ord O true data = MetaModel.FOk s) \/
+                                          (exists es, es <> [] /\ MetaModel3.from_raw3_ord ord O true data = MetaModel.FGroup es))) \/
+  (MetaFacts3.escapes3 O data = true /\ exists c k, MetaModel3.from_raw3_ord ord O true data = MetaModel.FCrash c /\ MetaFacts3.reached O data k /\
+                                         MetaModel.is_field k = true /\ MetaFacts3.raised_in O k (MetaBase.lookup k data) c).
+Proof. exact (C17.C17_outcome3 O data ord). Qed.
+Print Assumptions C11_metadata_outcome.
